@@ -71,3 +71,15 @@ def d09_non_interactions_directed():
     got = {frozenset(p) for p in dn.non_interactions(g, 0)}
     # at t=0 only 1->0 is present: {0,2} and {1,2} do not interact
     return got != {frozenset((0, 2)), frozenset((1, 2))}
+
+
+@script
+def d20_unclosed_two_run_roundtrip():
+    import io
+    g = dn.DynGraph()
+    g.add_interaction(0, 1, 0)
+    g.add_interaction(0, 1, 1)
+    b = io.BytesIO()
+    dn.write_interactions(g, b)
+    h = dn.read_interactions(io.BytesIO(b.getvalue()), nodetype=int, timestamptype=int)
+    return g.has_interaction(0, 1, 1) and not h.has_interaction(0, 1, 1)
